@@ -127,7 +127,7 @@ var misuseTemplates = []struct{ class, src string }{
 	{"arg-type", "year(null)"}, {"arg-type", "year(z)"}, {"arg-type", "timeFormat(null, '2006')"}, {"arg-type", "useTimezone(nilp, 'UTC')"}, {"arg-type", "addDate(null, 1, 1, 1)"}, {"arg-type", "hour(undefinedname)"},
 	{"arg-type", "millSecond(m.missing)"}, {"arg-type", "weekDay(nd)"}, {"arg-type", "month(s0)"}, {"arg-type", "day(arr)"}, {"arg-type", "ftime(null)"}, {"arg-type", "ftime(z)"},
 	{"spread-misuse", "abs(arr...)"}, {"spread-misuse", "fsum(1 ...)"}, {"spread-misuse", "fsum(s0...)"}, {"spread-misuse", "fsum(null...)"}, {"spread-misuse", "fcat('a', arr...)"}, {"spread-misuse", "fid(arr...)"},
-	{"invalid-regexp", "regexp('a', '(')"}, {"invalid-regexp", "regexp(s0, '[a')"}, {"invalid-regexp", "regexp('a', '*')"}, {"invalid-regexp", "regexp('a', 'a{2,1}')"}, {"invalid-regexp", "regexp('a', '\\\\')"},
+	{"invalid-regexp", "regexp('a', '(')"}, {"invalid-regexp", "regexp(s0, '[a')"}, {"invalid-regexp", "regexp('a', '*')"}, {"invalid-regexp", "regexp('a', 'a{2,1}')"}, {"invalid-regexp", "regexp('a', '\\\\')"}, {"invalid-regexp", "regexp('a', ')')"}, {"invalid-regexp", "regexp(s0, 'a)')"}, {"invalid-regexp", "regexp('total)', 'total)')"}, {"invalid-regexp", "regexp('a', '())')"},
 	{"compare-composite", "arr == arr"}, {"compare-composite", "[1] == [1]"}, {"compare-composite", "m == m"}, {"compare-composite", "m != m"}, {"compare-composite", "arr === arr"}, {"compare-composite", "m !== m"},
 	{"compare-composite", "[1] != [2]"}, {"compare-composite", "[] === []"}, {"compare-composite", "m == this"}, {"compare-composite", "m.b == m.b"}, {"compare-composite", "arr == [1]"}, {"compare-composite", "this === this"},
 	{"missing-struct-field", "st.Z"}, {"missing-struct-field", "st.missing"}, {"missing-struct-field", "st.a"}, {"missing-struct-field", "st.Z.k"}, {"missing-struct-field", "st!.Z"}, {"missing-struct-field", "[st.Z]"},
